@@ -1095,3 +1095,246 @@ pub fn ep_discovery_case(rng: &mut Rng) -> Option<(RPos, usize, usize)> {
     random_clocks(rng, &mut p, false);
     Some((p, origin, s2))
 }
+
+/// Dense, maximally fragmented placements (pieces on alternating squares): the longest placement
+/// fields a FEN can have (up to 71 characters), many pieces per side, few empty runs merged.
+pub fn dense_fragmented_case(rng: &mut Rng) -> RPos {
+    loop {
+        let mut p = RPos::empty();
+        p.stm = rc(rng);
+        let parity = rng.below(2) as i32;
+        let mut squares: Vec<usize> = (0..64).filter(|&s| ((s % 8) as i32 + (s / 8) as i32) % 2 == parity).collect();
+        rng.shuffle(&mut squares);
+        let n = 26 + rng.usize(7); // 26..32 pieces in all
+        let mut counts = [[0usize; 2]; 2];
+        let mut placed = 0;
+        // kings first
+        let wk = squares[0];
+        let bk = match squares.iter().copied().find(|&s| s != wk && !adjacent(s, wk)) {
+            Some(s) => s,
+            None => continue,
+        };
+        p.sq[wk] = Some((Color::White, Piece::King));
+        p.sq[bk] = Some((Color::Black, Piece::King));
+        counts[0][0] = 1;
+        counts[1][0] = 1;
+        for &s in &squares {
+            if placed + 2 >= n {
+                break;
+            }
+            if p.sq[s].is_some() {
+                continue;
+            }
+            let c = if counts[0][0] <= counts[1][0] { Color::White } else { Color::Black };
+            if counts[ci(c)][0] >= 16 {
+                continue;
+            }
+            let (_, r) = fr(s);
+            let mut pc = *rng.pick(&[Piece::Pawn, Piece::Pawn, Piece::Knight, Piece::Bishop, Piece::Rook, Piece::Queen]);
+            if pc == Piece::Pawn && (r == 0 || r == 7 || counts[ci(c)][1] >= 8) {
+                pc = Piece::Knight;
+            }
+            p.sq[s] = Some((c, pc));
+            counts[ci(c)][0] += 1;
+            if pc == Piece::Pawn {
+                counts[ci(c)][1] += 1;
+            }
+            placed += 1;
+        }
+        random_clocks(rng, &mut p, false);
+        if rng.chance(1, 2) {
+            backed_rights(rng, &mut p, 80);
+        }
+        // must be sound and the mover attacked by at most two pieces, otherwise it is not a board
+        if p.structurally_sound().is_ok() && p.checkers().len() <= 2 {
+            return p;
+        }
+    }
+}
+
+/// Base for "castling is the only legal move": Chess960 king on (or next to) its castling square
+/// with the castling rook beside it, hemmed in by blocked pawns and covered flight squares.
+fn castle_boxed_base(rng: &mut Rng) -> RPos {
+    let mut p = RPos::empty();
+    let us = rc(rng);
+    let them = other(us);
+    p.stm = us;
+    let br = rel_rank(us, 1);
+    let d = fwd(us);
+    let short = rng.chance(1, 2);
+    // king on its castling destination, or one file away from it; rook adjacent on the outer side
+    let (kf, rf) = if short {
+        *rng.pick(&[(6, 7), (6, 7), (5, 6), (5, 7)])
+    } else {
+        *rng.pick(&[(2, 1), (2, 0), (2, 1), (3, 2), (1, 0)])
+    };
+    p.sq[idx(kf, br)] = Some((us, Piece::King));
+    p.sq[idx(rf, br)] = Some((us, Piece::Rook));
+    p.rights[ci(us)][if short { 0 } else { 1 }] = Some(rf as u8);
+    // own pawns in front, each blocked by an enemy pawn
+    for f in (kf - 1).max(0)..=(kf.max(rf) + 1).min(7) {
+        if rng.chance(2, 3) {
+            let (a, b) = (idx(f, br + d), idx(f, br + 2 * d));
+            if p.sq[a].is_none() && p.sq[b].is_none() {
+                p.sq[a] = Some((us, Piece::Pawn));
+                p.sq[b] = Some((them, Piece::Pawn));
+            }
+        } else if rng.chance(1, 2) {
+            // an enemy pawn on our second rank (covers two back-rank squares)
+            let a = idx(f, br + d);
+            if p.sq[a].is_none() {
+                p.sq[a] = Some((them, Piece::Pawn));
+            }
+        }
+    }
+    // the enemy king close by, covering flight squares
+    for _ in 0..30 {
+        let s = idx(rng.range(0, 7) as i32, br + d * rng.range(1, 3) as i32);
+        if p.sq[s].is_none() && !adjacent(s, idx(kf, br)) {
+            p.sq[s] = Some((them, Piece::King));
+            break;
+        }
+    }
+    if p.king_sq(them).is_none() {
+        far_king(rng, &mut p, them, idx(kf, br));
+    }
+    // a few enemy pieces aimed at the back rank
+    for _ in 0..rng.below(3) {
+        let s = empty_sq(rng, &mut p);
+        let (_, r) = fr(s);
+        let mut pc = *rng.pick(&[Piece::Knight, Piece::Bishop, Piece::Rook, Piece::Queen]);
+        if r == br {
+            pc = Piece::Knight;
+        }
+        p.sq[s] = Some((them, pc));
+    }
+    random_clocks(rng, &mut p, false);
+    p
+}
+
+/// Rejection-sampled rare classes: positions in which *every* legal move is a castling move, every
+/// legal move is an en passant capture, or there is exactly one legal move. Bounded tries; the last
+/// sample is returned if the class was not hit.
+pub fn special_class_case(rng: &mut Rng) -> (RPos, &'static str) {
+    let which = rng.below(3);
+    let mut last = RPos::empty();
+    for _ in 0..400 {
+        let p = match which {
+            0 => castle_boxed_base(rng),
+            1 => ep_case(rng),
+            _ => match rng.below(3) {
+                0 => few_movers_case(rng),
+                1 => mating_case(rng),
+                _ => castle_boxed_base(rng),
+            },
+        };
+        if p.structurally_sound().is_err() || p.checkers().len() > 2 {
+            continue;
+        }
+        let legal = p.legal_moves();
+        let hit = match which {
+            0 => !legal.is_empty() && legal.iter().all(|&m| p.is_castle(m)),
+            1 => !legal.is_empty() && legal.iter().all(|&m| p.is_ep_capture(m)),
+            _ => legal.len() == 1,
+        };
+        if hit {
+            return (p, match which {
+                0 => "only-castling-legal",
+                1 => "only-en-passant-legal",
+                _ => "exactly-one-legal-move",
+            });
+        }
+        last = p;
+    }
+    (last, "special-class-not-hit")
+}
+
+/// Records of maximal length: 32 men strictly alternating with single empty squares on every rank
+/// (71-character placement), four castling rights, an EP square, half-move clock 100 and a five-digit
+/// full-move number: 91 characters, the longest record the library can print.
+pub fn max_record_case(rng: &mut Rng) -> RPos {
+    for _ in 0..600 {
+        let mut p = RPos::empty();
+        let us = rc(rng); // side to move; the other side has just double-pushed
+        let them = other(us);
+        p.stm = us;
+        let f = rng.range(0, 7) as i32;
+        let (r4, r3, r2) = (rel_rank(them, 4), rel_rank(them, 3), rel_rank(them, 2));
+        // parity per rank: square (x, y) is occupied iff (x + par[y]) is even
+        let mut par = [0i32; 8];
+        for y in 0..8 {
+            par[y] = rng.below(2) as i32;
+        }
+        par[r4 as usize] = f % 2; // occupied at f
+        par[r3 as usize] = (f + 1) % 2; // empty at f
+        par[r2 as usize] = (f + 1) % 2; // empty at f
+        let occ = |x: i32, y: i32| (x + par[y as usize]) % 2 == 0;
+        // back ranks: R . K . R . X . (or shifted): rook, king, rook on the first three occupied files
+        let mut ok = true;
+        for &c in &[Color::White, Color::Black] {
+            let y = rel_rank(c, 1);
+            let files: Vec<i32> = (0..8).filter(|&x| occ(x, y)).collect();
+            let k = 1 + rng.usize(2); // king on the 2nd or 3rd occupied file
+            for (i, &x) in files.iter().enumerate() {
+                let pc = if i == k {
+                    Piece::King
+                } else if i + 1 == k || i == k + 1 {
+                    Piece::Rook
+                } else {
+                    *rng.pick(&[Piece::Knight, Piece::Bishop, Piece::Queen])
+                };
+                p.sq[idx(x, y)] = Some((c, pc));
+            }
+            p.rights[ci(c)] = [Some(files[k + 1] as u8), Some(files[k - 1] as u8)];
+        }
+        // the pushed pawn
+        p.sq[idx(f, r4)] = Some((them, Piece::Pawn));
+        p.ep = Some(f as u8);
+        // remaining men: 12 per side on ranks 2..7, pawns first (8 per side, not on the back ranks)
+        let mut cnt = [[4usize, 0usize], [4usize, 0usize]];
+        cnt[ci(them)][0] += 1;
+        cnt[ci(them)][1] += 1;
+        let mut cells: Vec<(i32, i32)> = Vec::new();
+        for y in 1..7 {
+            for x in 0..8 {
+                if occ(x, y) && p.sq[idx(x, y)].is_none() {
+                    cells.push((x, y));
+                }
+            }
+        }
+        rng.shuffle(&mut cells);
+        for (x, y) in cells {
+            // colour by board half with some mixing, keeping 16 per side
+            let mut c = if (y <= 3) == rng.chance(4, 5) { Color::White } else { Color::Black };
+            if cnt[ci(c)][0] >= 16 {
+                c = other(c);
+            }
+            if cnt[ci(c)][0] >= 16 {
+                ok = false;
+                break;
+            }
+            let pc = if cnt[ci(c)][1] < 8 && rng.chance(3, 4) { Piece::Pawn } else { *rng.pick(&[Piece::Knight, Piece::Bishop, Piece::Queen, Piece::Rook]) };
+            p.sq[idx(x, y)] = Some((c, pc));
+            cnt[ci(c)][0] += 1;
+            if pc == Piece::Pawn {
+                cnt[ci(c)][1] += 1;
+            }
+        }
+        if !ok {
+            continue;
+        }
+        p.half = 100;
+        p.full = 10000 + rng.below(55536) as u32;
+        if p.structurally_sound().is_ok() && p.checkers().len() <= 2 {
+            let k = p.king_sq(us).unwrap();
+            let origin = idx(f, r2);
+            let pawn = idx(f, r4);
+            // EP must be consistent with the checkers for the library to accept the board
+            let consistent = p.checkers().iter().all(|&c| c == pawn || (crate::refmodel::geom::between(c, k) >> origin) & 1 == 1);
+            if consistent {
+                return p;
+            }
+        }
+    }
+    dense_fragmented_case(rng)
+}
